@@ -595,3 +595,12 @@ class _Analysis:
     def _iter_is_elems(self, it):
         # enumerate/zip already produced element roots in eval_call
         return isinstance(it, ast.Call) and isinstance(it.func, ast.Name) and it.func.id in ("enumerate", "zip", "chain", "islice", "filter")
+
+
+def get_effects(project):
+    """one shared (memoising) engine per Project"""
+    e = getattr(project, "_effects_engine", None)
+    if e is None:
+        e = Effects(project)
+        project._effects_engine = e
+    return e
